@@ -30,7 +30,8 @@ def cases_for(ctx, rng, maxl, quick):
                     cases.append(dc.make_case(rng, LA, LB, br, ecpL=None if max(LA, LB) < 4 else rng.choice([1, 2])))
             # equal-parameter coincidences: a generally contracted pair (same exponents, other coefficients) and twins
             if LA == LB and (not quick or LA <= 2):
-                for br, tw in (("A=B", "exps"), ("A=B", "same"), ("distinct", "exps")):
+                # ("distinct", "same"): the same contracted shell on two different atoms - what every molecule with two equal atoms has
+                for br, tw in (("A=B", "exps"), ("A=B", "same"), ("distinct", "exps"), ("distinct", "same")):
                     cases.append(dc.make_case(rng, LA, LB, br, ecpL=rng.choice([1, 2]), twin=tw))
     return cases
 
